@@ -411,3 +411,28 @@ package swamp
 //@   property C16
 //@   modifies *
 //@   before swamp.Close [idle_close_only_without_active_vigils_and_not_while_closing] calls("Vigil.HasActiveVigils") > old(calls("Vigil.HasActiveVigils")) && !lastretb("Vigil.HasActiveVigils") && s.closing == 0 && (s.inMemorySwamp == 1 || s.isFilesystemWritingActive == 0)
+
+// ---------------------------------------------------------------------------------------
+// PatchExpired with a cap (property C12): the swamp's cap mutex is held for the whole operation; the room
+// handed to the index engine is the cap minus the records that match the cap filter but carry NO expiry (the
+// expiry index, where the engine counts, cannot see them: fixed defect); the counting predicate is exactly
+// "no expiry and matches the cap filter".
+//@ trusted func (github.com/hydraide/hydraide/app/core/hydra/swamp/beacon.Beacon).CountMatching(b, pred) (n)
+//@   ensures n >= 0
+//@ trusted func (github.com/hydraide/hydraide/app/core/hydra/swamp/beacon.Beacon).SelectExpiredForPatchWithCap(b, howMany, sel, capPred, capMax) (out, capReached)
+//@ trusted func (github.com/hydraide/hydraide/app/core/hydra/swamp/beacon.Beacon).ReindexExpiration(b, ts)
+//@ func (*swamp).applyPatchExpiredOne(s, t, ops, condition, meta) (entry)
+//@   opaque
+//@ func (*swamp).PatchExpired$1(t) (r)
+//@   property C12
+//@   requires[record] t != nil
+//@   modifies *
+//@   ensures[counts_matching_records_without_expiry] r <==> (U_treasure_exp(t) == 0 && fnb(capPredicate, t))
+//@ func (*swamp).PatchExpired(s, howMany, ops, condition, meta, selectionPredicate, capPredicate, capMax) (entries, capReached, err)
+//@   property C12
+//@   overflow: assumed
+//@   modifies *
+//@   before Beacon.SelectExpiredForPatchWithCap [selection_and_count_under_the_cap_mutex] capPredicate != nil ==> held(s.capMu)
+//@   before Beacon.SelectExpiredForPatchWithCap [room_excludes_matching_records_without_expiry] capPredicate != nil ==> calls("Beacon.CountMatching") == old(calls("Beacon.CountMatching")) + 1 && calledwith("Beacon.CountMatching", 0, s.beaconKey) && litof(lastarg("Beacon.CountMatching", 1)) == 1 && arg4 == capMax - lastret("Beacon.CountMatching")
+//@   before Beacon.SelectExpiredForPatchWithCap [no_cap_no_count] capPredicate == nil ==> arg4 == capMax
+//@   before swamp.applyPatchExpiredOne [records_are_patched_under_the_cap_mutex] capPredicate != nil ==> held(s.capMu)
